@@ -1566,3 +1566,158 @@ class PoissonSpatialLikelihood:
         w = to_real(counts.f((i,)))
         yield 'cell score == log Poisson pmf(count | scaled rate) = -rate + count*ln(rate) - ln(count!)', \
             z3.Implies(z3.And(0 <= i, i < n), to_real(r.f((i,))) == -lam + w * LOG(lam) - LOGGAMMA(w + 1))
+
+
+# ------------------------------------------------------------------ C08: binary (per active bin) T-test kernel
+@contract
+class MatrixBinaryTTest:
+    """matrix_binary_t_test: the T-test formulas with N = number of ACTIVE space-magnitude bins (bins holding at least one observed
+    event), not the number of events"""
+    qualname = 'csep.core.binomial_evaluations.matrix_binary_t_test'
+    case = 'rates in the active bins, at least two active bins'
+    properties = ('C08',)
+
+    def params(c):
+        from pyvc.core import Lam
+        n = c.int('n_rates')
+        n0, n1 = c.int('n_cells'), c.int('n_mag_bins')
+        c.ctx.assume(z3.And(n >= 0, n0 >= 1, n1 >= 1))
+        counts = c.arr2_flat('observed_counts', 'float64', (n0, n1))
+        cat = c.obj(None, name='obs', spatial_magnitude_counts=Lam(lambda *a, **k: counts))
+        return dict(target_event_rates1=c.arr('rates1', 'float64', n=n), target_event_rates2=c.arr('rates2', 'float64', n=n),
+                    n_obs=c.int('n_obs'), n_f1=c.real('n_f1'), n_f2=c.real('n_f2'), catalog=cat, alpha=c.real('alpha'), _counts=counts)
+
+    @staticmethod
+    def active(_counts):
+        t = z3.Int('i!cnt')
+        return CNT(z3.Lambda([t], to_real(_flat(_counts, t)) != 0), _size(_counts))
+
+    @staticmethod
+    def counts_of(catalog, _counts):
+        # at a call site the contract sees the catalog only: its gridded counts are what spatial_magnitude_counts() returns
+        if _counts is not None:
+            return _counts
+        f = catalog.fields.get('spatial_magnitude_counts')
+        return f.fn()
+
+    def accepts(c, target_event_rates1, target_event_rates2, n_obs, n_f1, n_f2, catalog, alpha=0.05, _counts=None):
+        from pyvc.core import Lam, Obj
+        return isinstance(catalog, Obj) and isinstance(catalog.fields.get('spatial_magnitude_counts'), Lam)
+
+    def requires(c, target_event_rates1, target_event_rates2, n_obs, n_f1, n_f2, catalog, alpha=0.05, _counts=None):
+        _counts = MatrixBinaryTTest.counts_of(catalog, _counts)
+        return [to_real(alpha) > 0, to_real(alpha) < 1, MatrixBinaryTTest.active(_counts) >= 2]
+
+    def ensures(c, r, target_event_rates1, target_event_rates2, n_obs, n_f1, n_f2, catalog, alpha=0.05, _counts=None):
+        _counts = MatrixBinaryTTest.counts_of(catalog, _counts)
+        alpha = to_real(alpha)
+        a, b = target_event_rates1, target_event_rates2
+        n = a.n
+        N = z3.ToReal(MatrixBinaryTTest.active(_counts))
+        d = lambda i: LOG(to_real(a.f((i,)))) - LOG(to_real(b.f((i,))))
+        S1 = rsum(d, n)
+        S2 = rsum(lambda i: d(i) * d(i), n)
+        yield 'is dict with the five entries', z3.BoolVal(isinstance(r, dict) and set(r) == {
+            't_statistic', 't_critical', 'information_gain', 'ig_lower', 'ig_upper'})
+        if not isinstance(r, dict):
+            return
+        ig = to_real(r['information_gain'])
+        yield 'information gain per ACTIVE BIN: (sum of log-rate differences - (N1 - N2)) / number of active bins', ig * N == S1 - (n_f1 - n_f2)
+        var = c.ctx.fresh_real('var')
+        c.ctx.assume(var == S2 / (N - 1) - (S1 * S1) / (N * N - N))
+        std = SQRT(var)
+        sN = SQRT(N)
+        yield 't statistic = IG / (s / sqrt N) with the variance of eq. 18 over the active bins', to_real(r['t_statistic']) == ig / (std / sN)
+        tc = TPPF(1 - alpha / 2, N - 1)
+        yield 't critical: Student t with N - 1 degrees of freedom', to_real(r['t_critical']) == tc
+        yield 'interval', z3.And(to_real(r['ig_lower']) == ig - tc * std / sN, to_real(r['ig_upper']) == ig + tc * std / sN)
+
+    def result(c, target_event_rates1, target_event_rates2, n_obs, n_f1, n_f2, catalog, alpha=0.05, _counts=None):
+        return {k: c.ctx.fresh_real(k) for k in ('t_statistic', 't_critical', 'information_gain', 'ig_lower', 'ig_upper')}
+
+
+def _binary_pair_objects(c):
+    """two abstract gridded forecasts (stored rates, target_event_rates() recording how it was asked) and an abstract catalog with
+    its gridded space-magnitude counts"""
+    from pyvc.core import Lam
+    n = c.int('n_events')
+    n0, n1 = c.int('n_cells'), c.int('n_mag_bins')
+    c.ctx.assume(z3.And(n >= 2, n0 >= 1, n1 >= 1))
+    mags = c.arr('magnitudes', 'float64')
+    c.ctx.assume(mags.n >= 1)
+    counts = c.arr2_flat('observed_counts', 'float64', (n0, n1))
+    cat = c.obj(None, event_count=n, name='cat', spatial_magnitude_counts=Lam(lambda *a, **k: counts))
+    log = []
+    out = {}
+    for tag in ('A', 'B'):
+        rates = c.arr('rates' + tag, 'float64', n=n)
+        tot = c.real('total' + tag)
+        data = c.arr2_flat('data' + tag, 'float64', (n0, n1))
+
+        def ter(target_catalog, scale=False, tag=tag, rates=rates, tot=tot):
+            log.append((tag, target_catalog, scale))
+            return (rates, tot)
+        out[tag] = (c.obj(None, target_event_rates=Lam(ter), name='fc' + tag, magnitudes=mags, data=data), data, tot)
+    return out, cat, log, counts
+
+
+def binary_paired_t_case(scale):
+    class BPT:
+        qualname = 'csep.core.binomial_evaluations.binary_paired_t_test'
+        case = 'abstract forecasts / catalog, scale=%s' % scale
+        properties = ('C08',)
+
+        def params(c):
+            o, cat, log, counts = _binary_pair_objects(c)
+            return dict(forecast=o['A'][0], benchmark_forecast=o['B'][0], observed_catalog=cat, alpha=c.real('alpha'), scale=scale,
+                        _o=o, _log=log, _counts=counts)
+
+        def requires(c, forecast, benchmark_forecast, observed_catalog, alpha, scale, _o, _log, _counts):
+            return [alpha > 0, alpha < 1, MatrixBinaryTTest.active(_counts) >= 2]
+
+        def ensures(c, r, forecast, benchmark_forecast, observed_catalog, alpha, scale, _o, _log, _counts):
+            from pyvc.core import Obj
+            yield 'returns an evaluation result', z3.BoolVal(isinstance(r, Obj))
+            yield 'each forecast is asked once for its totals, for the observed catalog and with the SAME scale flag', \
+                z3.BoolVal(sorted(t[0] for t in _log) == ['A', 'B'] and all(t[1] is observed_catalog and t[2] is scale for t in _log))
+            calls = c.calls(MatrixBinaryTTest.qualname)
+            yield 'one call of the array-level binary T-test', z3.BoolVal(len(calls) == 1)
+            if calls:
+                loc, out = calls[0][1], calls[0][2]
+                r1, r2 = loc['target_event_rates1'], loc['target_event_rates2']
+                N = MatrixBinaryTTest.active(_counts)
+                ok = isinstance(r1, Arr) and isinstance(r2, Arr) and r1.ndim == 1 and r2.ndim == 1
+                yield 'the rates handed over are 1-d arrays', z3.BoolVal(ok)
+                if ok:
+                    yield 'one rate per active bin, for both forecasts', z3.And(to_z3(r1.shape[0]) == N, to_z3(r2.shape[0]) == N)
+                    # the active bins in increasing order: the strictly increasing enumerations the two selections use coincide (L9)
+                    sels = [g for g in (c.ctx.ghost.get('selections') or {}).values() if g['n'].eq(to_z3(_size(_counts)))]
+                    j = c.ctx.fresh_int('j!sk')
+                    if len(sels) >= 2:
+                        sa, sb = sels[0], sels[1]
+                        from contracts.fcfile import _same_enumeration_hints
+                        yield from _same_enumeration_hints(c, None, {'U': sa['m'], 'FO': sa['sel']}, sb['sel'], sb['m'], 'active bins',
+                                                           lambda t: sb['inv'](sa['sel'](t)), lambda t: sa['inv'](sb['sel'](t)))
+                        c.I.used_lemmas.add('L9.enum_unique')
+                        s_j = sa['sel'](j)
+                        inj = z3.And(0 <= j, j < N)
+                        yield 'entry j of both arrays is the stored rate of the j-th active bin (same bin for forecast and benchmark)', z3.Implies(
+                            inj, z3.And(0 <= s_j, s_j < _size(_counts), to_real(_flat(_counts, s_j)) != 0,
+                                        to_real(r1.f((j,))) == to_real(_flat(_o['A'][1], s_j)), to_real(r2.f((j,))) == to_real(_flat(_o['B'][1], s_j))))
+                yield 'forecast first, benchmark second (sign of the information gain)', z3.BoolVal(loc['n_f1'] is _o['A'][2] and loc['n_f2'] is _o['B'][2])
+                yield 'the catalog handed over is the observed catalog', z3.BoolVal(loc['catalog'] is observed_catalog)
+                yield 'significance level passed through', to_real(loc['alpha']) == alpha
+                yield 'observed statistic is the information gain', z3.BoolVal(r.fields.get('observed_statistic') is out['information_gain'])
+                td, q = r.fields.get('test_distribution'), r.fields.get('quantile')
+                yield 'test distribution is the confidence interval (lower, upper)', z3.BoolVal(
+                    isinstance(td, tuple) and len(td) == 2 and td[0] is out['ig_lower'] and td[1] is out['ig_upper'])
+                yield 'quantile is (t statistic, t critical)', z3.BoolVal(
+                    isinstance(q, tuple) and len(q) == 2 and q[0] is out['t_statistic'] and q[1] is out['t_critical'])
+            yield 'name / status / names', z3.BoolVal(r.fields.get('status') == 'normal' and r.fields.get('sim_name') == ('fcA', 'fcB')
+                                                      and r.fields.get('obs_name') == 'cat')
+    BPT.__name__ = 'BinaryPairedT_%s' % scale
+    return BPT
+
+
+for _s in (False, True):
+    _REG.add(binary_paired_t_case(_s))
